@@ -441,6 +441,247 @@ pub fn apply_unary(src: DynView, v: &[Sx]) -> Result<DynView, Sx> {
             let kind = v[2].i64().ok_or_else(bad_case)?;
             each_d!(src, apply_wrap(kind))
         }
+        // convenience constructors of TensorView: via 1 = `_owned`, 2 = `_mut`, 3 = by reference
+        (1..=8, 4) => conv_view(src, tag, &v[2], v[3].i64().ok_or_else(bad_case)?),
         _ => Err(bad_case()),
+    }
+}
+
+// ------------------------------------------------------------------------------------------
+// Convenience constructors (`TensorView::range_owned(..)`, `Tensor::reverse(..)`, ...): each is
+// `TensorView::from(Adaptor::from(SOURCE, args))`; `TensorView::source()` hands the adaptor back,
+// which is re-boxed like every other adaptor.  Receivers: a TensorView over the erased source
+// (owned / `&mut` / `&`), or the leaf Tensor itself (`&mut` / `&`).
+fn tv_owned<const D: usize>(x: Dyn<D>) -> TensorView<E, Dyn<D>, D> {
+    TensorView::from(x)
+}
+fn tv_mut<const D: usize>(x: Dyn<D>) -> &'static mut TensorView<E, Dyn<D>, D> {
+    Box::leak(Box::new(TensorView::from(x)))
+}
+#[allow(dead_code)]
+fn tv_ref<const D: usize>(x: Dyn<D>) -> &'static TensorView<E, Dyn<D>, D> {
+    Box::leak(Box::new(TensorView::from(x)))
+}
+fn tv_probe<const D: usize>(r: &TensorView<E, Dyn<D>, D>) -> &Dyn<D> {
+    r.source_ref()
+}
+#[allow(dead_code)]
+fn t_probe<const D: usize>(r: &Tensor<E, D>) -> &Tensor<E, D> {
+    r
+}
+
+macro_rules! conv_named {
+    ($recv:expr, $method:ident, $named:expr, $D:ident; $($p:literal),*) => {
+        match $named.len() {
+            $($p => {
+                let arr: [(&'static str, IndexRange); $p] =
+                    std::array::from_fn(|k| (dim($named[k].0), index_range($named[k].1, $named[k].2, k)));
+                match guarded(|| $recv.$method(arr)) {
+                    None => Err(panicked()),
+                    Some(Err(e)) => Err(err(e_irv(&e))),
+                    Some(Ok(v)) => Ok(Box::new(v.source()) as Dyn<$D>),
+                }
+            })*
+            _ => Err(bad_case()),
+        }
+    };
+}
+
+// the panicking constructors behind index_by* / transpose_view must panic exactly when try_from
+// reports an error; the canonical result is that error
+macro_rules! conv_panicking {
+    ($recv:expr, $probe:ident, $Try:ident, $names:expr, $call:expr, $D:ident) => {{
+        let expected = $Try::try_from($probe(std::borrow::Borrow::borrow(&$recv)), $names).err().map(|e| e_access(&e));
+        match (guarded($call), expected) {
+            (None, Some(e)) => Err(err(e)),
+            (Some(v), None) => Ok(Box::new(v) as Dyn<$D>),
+            _ => Err(inconsistent(266)),
+        }
+    }};
+}
+
+macro_rules! conv_generic_fn {
+    ($fname:ident, $Src:ty, $mk:ident, $probe:ident, $range:ident, $mask:ident, $reverse:ident, $index_by:ident
+     $(, ref_only $rename_view:ident $transpose_view:ident)?) => {
+        #[allow(dead_code)]
+        pub fn $fname<const D: usize>(src: $Src, tag: i64, args: &Sx) -> Result<DynView, Sx>
+        where
+            K: Dim<D>,
+        {
+            let recv = $mk(src);
+            let out: Result<Dyn<D>, Sx> = match tag {
+                1 | 2 => {
+                    let Some(Params::Named(false, named)) = params(args) else { return Err(bad_case()) };
+                    if tag == 1 {
+                        conv_named!(recv, $range, named, D; 0, 1, 2, 3, 4, 5, 6, 7)
+                    } else {
+                        conv_named!(recv, $mask, named, D; 0, 1, 2, 3, 4, 5, 6, 7)
+                    }
+                }
+                6 => {
+                    let names: Vec<&'static str> = args.usizes().ok_or_else(bad_case)?.iter().map(|n| dim(*n)).collect();
+                    match guarded(|| recv.$reverse(&names)) {
+                        None => Err(panicked()),
+                        Some(v) => Ok(Box::new(v.source()) as Dyn<D>),
+                    }
+                }
+                7 => {
+                    let names = args.usizes().ok_or_else(bad_case)?;
+                    if names.len() != D {
+                        return Err(bad_case());
+                    }
+                    let names: [&'static str; D] = names_arr(&names);
+                    conv_panicking!(recv, $probe, TensorAccess, names, || recv.$index_by(names), D)
+                }
+                $(
+                5 => {
+                    let names = args.usizes().ok_or_else(bad_case)?;
+                    if names.len() != D {
+                        return Err(bad_case());
+                    }
+                    let names: [&'static str; D] = names_arr(&names);
+                    match guarded(|| recv.$rename_view(names)) {
+                        None => Err(panicked()),
+                        Some(v) => Ok(Box::new(v.source()) as Dyn<D>),
+                    }
+                }
+                8 => {
+                    let names = args.usizes().ok_or_else(bad_case)?;
+                    if names.len() != D {
+                        return Err(bad_case());
+                    }
+                    let names: [&'static str; D] = names_arr(&names);
+                    conv_panicking!(recv, $probe, TensorTranspose, names, || recv.$transpose_view(names).source(), D)
+                }
+                )?
+                _ => Err(bad_case()),
+            };
+            out.map(<K as Dim<D>>::pack)
+        }
+    };
+}
+
+fn id_recv<T>(x: T) -> T {
+    x
+}
+
+conv_generic_fn!(conv_tv_owned, Dyn<D>, tv_owned, tv_probe, range_owned, mask_owned, reverse_owned, index_by_owned);
+conv_generic_fn!(conv_tv_mut, Dyn<D>, tv_mut, tv_probe, range_mut, mask_mut, reverse_mut, index_by_mut);
+only_ref! {
+    conv_generic_fn!(conv_tv_ref, Dyn<D>, tv_ref, tv_probe, range, mask, reverse, index_by, ref_only rename_view transpose_view);
+    conv_generic_fn!(conv_t_ref, &'static Tensor<E, D>, id_recv, t_probe, range, mask, reverse, index_by, ref_only rename_view transpose_view);
+}
+only_mut! {
+    conv_generic_fn!(conv_t_mut, &'static mut Tensor<E, D>, id_recv, t_probe, range_mut, mask_mut, reverse_mut, index_by_mut);
+}
+
+// select / expand exist for exactly one pair and per dimensionality
+macro_rules! conv_select_case {
+    ($src:expr, $args:expr, $mk:ident, $method:ident, $W:ident; $( ($Vin:ident, $Vout:ident) ),*) => {{
+        let ps = $args.pairs_usize().ok_or_else(bad_case)?;
+        if ps.len() != 1 {
+            return Err(bad_case());
+        }
+        match $src {
+            $( $W::$Vin(x) => {
+                let recv = $mk(x);
+                match guarded(|| recv.$method([(dim(ps[0].0), ps[0].1)])) {
+                    None => Err(panicked()),
+                    Some(v) => Ok(DynView::$Vout(Box::new(v.source()))),
+                }
+            } )*
+            #[allow(unreachable_patterns)]
+            _ => Err(bad_case()),
+        }
+    }};
+}
+macro_rules! conv_expand_case {
+    ($src:expr, $args:expr, $mk:ident, $method:ident, $W:ident; $( ($Vin:ident, $Vout:ident) ),*) => {{
+        let es = $args.pairs_usize().ok_or_else(bad_case)?;
+        if es.len() != 1 {
+            return Err(bad_case());
+        }
+        match $src {
+            $( $W::$Vin(x) => {
+                let recv = $mk(x);
+                match guarded(|| recv.$method([(es[0].0, dim(es[0].1))])) {
+                    None => Err(panicked()),
+                    Some(v) => Ok(DynView::$Vout(Box::new(v.source()))),
+                }
+            } )*
+            #[allow(unreachable_patterns)]
+            _ => Err(bad_case()),
+        }
+    }};
+}
+macro_rules! conv_select {
+    ($src:expr, $args:expr, $mk:ident, $method:ident, $W:ident) => {
+        conv_select_case!($src, $args, $mk, $method, $W; (D1, D0), (D2, D1), (D3, D2), (D4, D3), (D5, D4), (D6, D5))
+    };
+}
+macro_rules! conv_expand {
+    ($src:expr, $args:expr, $mk:ident, $method:ident, $W:ident) => {
+        conv_expand_case!($src, $args, $mk, $method, $W; (D0, D1), (D1, D2), (D2, D3), (D3, D4), (D4, D5), (D5, D6))
+    };
+}
+
+/// `(tag src args via)`: the convenience constructors of TensorView over the erased source
+pub fn conv_view(src: DynView, tag: i64, args: &Sx, via: i64) -> Result<DynView, Sx> {
+    match (via, tag) {
+        (1, 3) => conv_select!(src, args, tv_owned, select_owned, DynView),
+        (1, 4) => conv_expand!(src, args, tv_owned, expand_owned, DynView),
+        (1, _) => each_d!(src, conv_tv_owned(tag, args)),
+        (2, 3) => conv_select!(src, args, tv_mut, select_mut, DynView),
+        (2, 4) => conv_expand!(src, args, tv_mut, expand_mut, DynView),
+        (2, _) => each_d!(src, conv_tv_mut(tag, args)),
+        (3, _) => conv_view_ref(src, tag, args),
+        _ => Err(bad_case()),
+    }
+}
+only_ref! {
+    fn conv_view_ref(src: DynView, tag: i64, args: &Sx) -> Result<DynView, Sx> {
+        match tag {
+            3 => conv_select!(src, args, tv_ref, select, DynView),
+            4 => conv_expand!(src, args, tv_ref, expand, DynView),
+            _ => each_d!(src, conv_tv_ref(tag, args)),
+        }
+    }
+    /// `Tensor::xxx(&self, ..)` on the leaf tensor itself
+    pub fn conv_leaf(leaf: LeafRef, tag: i64, args: &Sx) -> Result<DynView, Sx> {
+        let leaf = leaf.shared();
+        match tag {
+            3 => conv_select!(leaf, args, id_recv, select, LeafShared),
+            4 => conv_expand!(leaf, args, id_recv, expand, LeafShared),
+            _ => match leaf {
+                LeafShared::D0(t) => conv_t_ref::<0>(t, tag, args),
+                LeafShared::D1(t) => conv_t_ref::<1>(t, tag, args),
+                LeafShared::D2(t) => conv_t_ref::<2>(t, tag, args),
+                LeafShared::D3(t) => conv_t_ref::<3>(t, tag, args),
+                LeafShared::D4(t) => conv_t_ref::<4>(t, tag, args),
+                LeafShared::D5(t) => conv_t_ref::<5>(t, tag, args),
+                LeafShared::D6(t) => conv_t_ref::<6>(t, tag, args),
+            },
+        }
+    }
+}
+only_mut! {
+    fn conv_view_ref(_src: DynView, _tag: i64, _args: &Sx) -> Result<DynView, Sx> {
+        Err(bad_case()) // a `&S` source is read-only: build.rs moves the source to the other family first
+    }
+    /// `Tensor::xxx_mut(&mut self, ..)` on the leaf tensor itself
+    pub fn conv_leaf(leaf: LeafRef, tag: i64, args: &Sx) -> Result<DynView, Sx> {
+        match tag {
+            3 => conv_select!(leaf, args, id_recv, select_mut, LeafRef),
+            4 => conv_expand!(leaf, args, id_recv, expand_mut, LeafRef),
+            _ => match leaf {
+                LeafRef::D0(t) => conv_t_mut::<0>(t, tag, args),
+                LeafRef::D1(t) => conv_t_mut::<1>(t, tag, args),
+                LeafRef::D2(t) => conv_t_mut::<2>(t, tag, args),
+                LeafRef::D3(t) => conv_t_mut::<3>(t, tag, args),
+                LeafRef::D4(t) => conv_t_mut::<4>(t, tag, args),
+                LeafRef::D5(t) => conv_t_mut::<5>(t, tag, args),
+                LeafRef::D6(t) => conv_t_mut::<6>(t, tag, args),
+            },
+        }
     }
 }
